@@ -402,7 +402,7 @@ pub fn execute(case: &Value, _scratch: &str) -> Outcome {
 }
 
 pub fn gen_steps(sw: &mut Rng, wl: &mut Rng, sheets: usize, n: usize) -> Vec<Step> {
-    let alpha = sw.usize(5);
+    let alpha = sw.usize(6);
     let mut local_shared: std::collections::BTreeSet<usize> = std::collections::BTreeSet::new();
     // swarm profile: annotation-heavy (the default) or grid-heavy (values, formats, rows and columns inserted in
     // the middle of the history and the rows around the insertion point touched afterwards)
@@ -458,7 +458,7 @@ pub fn gen_steps(sw: &mut Rng, wl: &mut Rng, sheets: usize, n: usize) -> Vec<Ste
                         sheet: wl.usize(sheets),
                         name: ["O'Brien", "R&D <x>", "a \"q\" b", "Überblick 日本", "exactly thirty-one characters!!", "Sheet 1", "1st"][wl.usize(7)].to_string(),
                     },
-                    2 => Op::RenameSheet { sheet: wl.usize(sheets), name: format!("R{} {}", i, world::gen_text(wl, if alpha == 1 || alpha == 4 { 3 } else { alpha }, 2).replace(['/', '\\', '?', '*', '[', ']', ':', '\n', '\t', '\r'], "_")) },
+                    2 => Op::RenameSheet { sheet: wl.usize(sheets), name: format!("R{} {}", i, world::gen_text(wl, if alpha == 1 || alpha >= 4 { 3 } else { alpha }, 2).replace(['/', '\\', '?', '*', '[', ']', ':', '\n', '\t', '\r'], "_")) },
                     _ => Op::NewSheet { name: format!("N{}", i) },
                 };
                 steps.push(Step::O(s));
